@@ -94,7 +94,58 @@ func c09Vocabulary() []c09Sym {
 			out = append(out, c09Sym{sql.Token{Type: tt, Text: name}, name})
 		}
 	}
+	// words the current sql/parser.go compares token texts with (string constants of the
+	// mirrored source, found with go/ast): a parser change that starts to look for a new
+	// word ("exists", "not", "primary", ...) puts that word into the vocabulary by itself
+	have := map[string]bool{}
+	for _, s := range out {
+		have[strings.ToLower(s.tok.Text)] = true
+	}
+	for _, w := range c09ParserWords() {
+		if have[strings.ToLower(w)] {
+			continue
+		}
+		have[strings.ToLower(w)] = true
+		out = append(out, c09Sym{sql.Token{Type: sql.IDENT, Text: w}, "ident:" + w}, c09Sym{sql.Token{Type: sql.STR, Text: w}, "str:" + w})
+	}
 	out = append(out, c09Sym{sql.EOFToken, "EOF"})
+	return out
+}
+
+// c09ParserWords: the word-like string constants (at most 16 letters, digits or
+// underscores) of the mirrored sql/parser.go outside its import block, sorted.
+func c09ParserWords() []string {
+	_, self, _, _ := runtime.Caller(0)
+	fset := token.NewFileSet()
+	pars, err := parser.ParseFile(fset, filepath.Join(filepath.Dir(filepath.Dir(self)), "sql", "parser.go"), nil, 0)
+	if err != nil {
+		panic(lib.HarnessError{Msg: fmt.Sprintf("cannot parse the mirrored sql/parser.go: %v", err)})
+	}
+	set := map[string]bool{}
+	for _, d := range pars.Decls {
+		if gd, ok := d.(*ast.GenDecl); ok && gd.Tok == token.IMPORT {
+			continue
+		}
+		ast.Inspect(d, func(n ast.Node) bool {
+			bl, ok := n.(*ast.BasicLit)
+			if !ok || bl.Kind != token.STRING || len(bl.Value) < 3 || len(bl.Value) > 18 {
+				return true
+			}
+			w := bl.Value[1 : len(bl.Value)-1]
+			for _, c := range w {
+				if !(c == '_' || c >= '0' && c <= '9' || c >= 'a' && c <= 'z' || c >= 'A' && c <= 'Z') {
+					return true
+				}
+			}
+			set[w] = true
+			return true
+		})
+	}
+	var out []string
+	for w := range set {
+		out = append(out, w)
+	}
+	sort.Strings(out)
 	return out
 }
 
